@@ -21,6 +21,7 @@
 package engine
 
 import (
+	"fmt"
 	"go/ast"
 	"go/token"
 	"reflect"
@@ -106,9 +107,31 @@ func (c *replacerCompiler) compile(v reflect.Value) Replacer {
 
 	case goast.PosType:
 		return c.compilePosReplacer(v)
+	case dotsPtrType:
+		// Elisions that are part of a list are handled by compileSliceDots
+		// and compileForStmt. Any other "..." cannot be reproduced.
+		return misplacedDotsReplacer{
+			Fset: c.fset,
+			Pos:  v.Interface().(*pgo.Dots).Pos(),
+		}
 	}
 
 	return c.compileGeneric(v)
+}
+
+var dotsPtrType = reflect.TypeOf((*pgo.Dots)(nil))
+
+// misplacedDotsReplacer stands for a "..." in the "+" section of a patch that
+// is not an element of a list. There is nothing it could be replaced with, so
+// it fails the replacement rather than leaking into the generated AST.
+type misplacedDotsReplacer struct {
+	Fset *token.FileSet
+	Pos  token.Pos
+}
+
+func (r misplacedDotsReplacer) Replace(data.Data, Changelog, token.Pos) (reflect.Value, error) {
+	return reflect.Value{}, fmt.Errorf(`%v: unexpected "..." in "+" section: `+
+		`elision is supported only as an element of a list`, r.Fset.Position(r.Pos))
 }
 
 // ZeroReplacer replaces with a zero value.
